@@ -71,6 +71,8 @@ pub fn parse_until<'a, T: Parse + Clone + Debug>(
                 }
         }
     {
+        #[cfg(feature = "verif_hooks")]
+        crate::verif_hook::point("parse::parse_until");
         let next: TokenTree = input.parse()?;
         next.to_tokens(&mut tokens);
     }
